@@ -1,6 +1,6 @@
 """C02 -- Basic zones match the TZ rules too, and agree with Extended on shared zones."""
 import os
-from .. import common, tzconf
+from .. import common, tzconf, extproc
 
 LEVEL = 'model_checking'
 
@@ -40,7 +40,10 @@ def run(tier):
             k = next((i for i in range(min(len(a), len(b))) if a[i] != b[i]), min(len(a), len(b)))
             chk.violation('shared:%s:basic-vs-extended' % n, 'Basic and Extended differ at piece %d: basic=%s extended=%s' % (k, a[k] if k < len(a) else None, b[k] if k < len(b) else None), {'zone': n, 'at': k})
             ndiff += 1
+    # algorithm level: BasicProc.tla (the init(year) algorithm) bound to the real processor's cache for every zone x year
+    # 1999..2050, its invariants (five slots suffice, sorted, no invalid start), and its step function judged by TzSem.tla
+    extproc.check_shipped(chk, 'basic')
     chk.add(shared_zones_compared=len(shared), exhaustive=True,
-            rule='every zone of zonedb swept at %d s over 2000..2049 through BasicZoneProcessor (each change bisected to the second) and judged by TzSem.tla; the same sweep through ExtendedZoneProcessor for every shared name, traces (offset, DST amount, abbreviation) compared' % grid)
+            rule='every zone of zonedb swept at %d s over 2000..2049 through BasicZoneProcessor (each change bisected to the second) and judged by TzSem.tla; the same sweep through ExtendedZoneProcessor for every shared name, traces (offset, DST amount, abbreviation) compared; BasicProc.tla: the cache of BasicZoneProcessor::init(y) (start, offsets, abbreviation, year, month, dropped transitions) equals the model for every zone x y in 1999..2050, and the model refines TzSem on every zone' % grid)
     chk.assume('zic/zdump (glibc 2.36) is the oracle; TzSem.tla must accept zic traces for the same lines else exit 2')
     return chk.finish()
